@@ -325,4 +325,23 @@ theorem save_reads_back_what_it_wrote (w : World) (post : Str → Option FileMet
   intro z hz
   exact inv.wr z (by simpa using hz)
 
+/-- **parents reference what was written.** In a forced save, when `save_manifests` turns to the Manifest `x`, every
+    loaded Manifest `y` that an entry of `x` names - in `x`'s own directory or in a longer one - has already been written
+    by this save, and `x`'s entry for it is refreshed from that content, under `y`'s new name if the watermark renamed it
+    (`saveOrder_referenced_first` + `save_reads_back_what_it_wrote`). -/
+theorem forced_save_refreshes_from_rewritten (w : World) (post : Str → Option FileMeta) (o : SaveOpts) (s1 : St) (ss1 : SSt)
+    (hf : o.force = true) (rank : Str → Nat)
+    (hrank : ∀ x ∈ C03.byDepth s1.plain, ∀ y ∈ C03.refsIn (C03.byDepth s1.plain) x, rank y.1 < rank x.1)
+    (hdist : (C03.paths (C03.byDepth s1.plain)).Nodup)
+    (hkeys : ∀ z ∈ C03.paths (saveOrder s1.plain), z ∈ s1.loaded.map (·.1))
+    (pre : List C03.X) (x : C03.X) (post1 : List C03.X) (hsplit : saveOrder s1.plain = pre ++ x :: post1)
+    (h : foldE (saveF w post o) ({ st := s1 } : SSt) (saveOrder s1.plain) = .ok ss1)
+    (y : C03.X) (hy : y ∈ C03.byDepth s1.plain) (hne : y.1 ≠ x.1)
+    (p : Str) (n : Nat) (c : List (Str × Str)) (hp : Entry.file .MANIFEST p n c ∈ x.2.2) (hyp : y.1 = pjoin x.2.1 p)
+    (hcase : dirname y.1 = x.2.1 ∨ x.2.1.length < y.2.1.length) :
+    ∃ ssi, foldE (saveF w post o) ({ st := s1 } : SSt) pre = .ok ssi ∧ Wr ssi y.1 := by
+  have hnd := C03.saveOrder_nodup s1.plain rank hrank
+  obtain ⟨ssi, h1, h2⟩ := save_reads_back_what_it_wrote w post o s1 ss1 hf hnd hkeys pre x post1 hsplit h
+  exact ⟨ssi, h1, h2 y.1 (C03.saveOrder_referenced_first s1.plain rank hrank hdist pre x post1 hsplit y hy hne p n c hp hyp hcase)⟩
+
 end Gemato.C13
